@@ -232,8 +232,22 @@ def mk_aspath(ctx, segs, factory):
         cls = SEQUENCE if kind == O.AS_SEQUENCE else SET
         built.append(cls([ASN(a) for a in asns]))
     if factory == 'parser':
-        return AS2Path.make_aspath(built)
+        # mirror of the call static.parser.as_path makes, read from the CURRENT source (the lead repaired it to
+        # pass asn4=True; a tree where it does not is caught as 'factory-refused' again)
+        return AS2Path.make_aspath(built, **PARSER_ASPATH_KW)
     return AS2Path.make_aspath(built, asn4=True)
+
+
+def _parser_aspath_kw():
+    import inspect
+    import re
+    import exabgp.configuration.static.parser as sp
+    src = inspect.getsource(sp.as_path)
+    calls = re.findall(r'make_aspath\(([^\n]*)\)', src)
+    return {'asn4': True} if calls and all('asn4=True' in c for c in calls) else {}
+
+
+PARSER_ASPATH_KW = _parser_aspath_kw()
 
 
 def mk_attributes(ctx, profile, nh_attr):
@@ -796,7 +810,7 @@ def units(tier):
     for f in fams:
         lab = FAMILIES[f]['safi'] != 1
         for kind in ('ibgp', 'ebgp'):
-            cov = ['emitted', 'addpath-pathid', 'as-trans+as4-path', 'factory-refused', 'as4-aggregator']
+            cov = ['emitted', 'addpath-pathid', 'as-trans+as4-path', 'as4-aggregator']
             cov += ['ibgp-localpref-default', 'ibgp-empty-as-path'] if kind == 'ibgp' else ['ebgp-no-localpref', 'ebgp-local-as-path']
             if lab:
                 cov += ['labels-1', 'labels-2']
